@@ -589,7 +589,7 @@ func (p *Prog) safetyCall(pr *Prover, b *ssa.BasicBlock, ins ssa.Instruction, cc
 			recvOff = 1
 		}
 		_ = np
-		ii := recvOff + 1
+		ii := recvOff + fillBufIndex(cal) + 1
 		if ii < len(args) {
 			l := pr.lin(args[ii])
 			okp := pr.Prove(b, l)
